@@ -1,6 +1,7 @@
 import TapkeeVerif.Model.Util
 import TapkeeVerif.Model.Knn
 import TapkeeVerif.Model.VpTree
+import TapkeeVerif.Model.KnnIO
 /-! Line-protocol driver for the neighbour-search models (C02, DESIGN §11).
 
 in : `knn method=brute|vptree|covertree k=3 cb=plain|kernel metric=L1|Linf|matrix pts=..|m=.. [kern=lin|matrix km=..]
@@ -12,84 +13,7 @@ property C02 determines the result.  The oracle is `Knn.isExactKnn` (the Bool fo
 are about) evaluated on the implementation's lists with distances recomputed here from the same exact inputs.
 `alt` lists the samples for which the second admissible outcome of the *current* code exists (≥ k+1 other samples
 coincide with the query: the query need not be among the k+1 selected, the list then has k+1 entries). -/
-open TapkeeVerif TapkeeVerif.Util TapkeeVerif.Knn TapkeeVerif.VpTree
-
-structure Space where
-  N : Nat
-  dist : Nat → Nat → Int
-  lt : Nat → Nat → Nat → Bool     -- DistanceComparator(callback, item)(a, b)
-
-def parseRows (s : String) : Option (Array (Array Int)) :=
-  (allSome ((s.splitOn ";").map fun r => (parseInts r).map List.toArray)).map List.toArray
-
-def absI (x : Int) : Int := if x < 0 then -x else x
-
-def l1 (p q : Array Int) : Int := Id.run do
-  let mut acc : Int := 0
-  for t in [0:p.size] do
-    acc := acc + absI (p[t]! - q[t]!)
-  return acc
-
-def linf (p q : Array Int) : Int := Id.run do
-  let mut acc : Int := 0
-  for t in [0:p.size] do
-    let d := absI (p[t]! - q[t]!)
-    if acc < d then acc := d
-  return acc
-
-def dot (p q : Array Int) : Int := Id.run do
-  let mut acc : Int := 0
-  for t in [0:p.size] do
-    acc := acc + p[t]! * q[t]!
-  return acc
-
-/-- exact integer square root; `none` unless a perfect square -/
-def isqrt? (x : Int) : Option Int :=
-  if x < 0 then none else
-    let r := Nat.sqrt x.toNat
-    if r * r = x.toNat then some (r : Int) else none
-
-def mkSpace (fs : List (String × String)) : Except String Space := do
-  let cb := (field? fs "cb").getD "plain"
-  let pts? := (field? fs "pts") >>= parseRows
-  if cb == "kernel" then
-    let kern := (field? fs "kern").getD "lin"
-    let (n, kf) ← (match kern with
-      | "matrix" =>
-        match (field? fs "km") >>= parseRows with
-        | some km => pure (km.size, fun (a b : Nat) => (km[a]!)[b]!)
-        | none => throw "bad-km"
-      | _ =>
-        match pts? with
-        | some pts => pure (pts.size, fun (a b : Nat) => dot pts[a]! pts[b]!)
-        | none => throw "bad-pts" : Except String (Nat × (Nat → Nat → Int)))
-    -- KernelDistance::distance = sqrt(k(l,l) - 2k(l,r) + k(r,r)); exact mode: a perfect square
-    let sq := fun (a b : Nat) => kf a a - 2 * kf a b + kf b b
-    for a in [0:n] do
-      for b in [0:n] do
-        if (isqrt? (sq a b)).isNone then throw "nonsquare-kernel-distance"
-    -- cache the distances
-    let tab : Array (Array Int) := Array.ofFn fun (a : Fin n) => Array.ofFn fun (b : Fin n) => (isqrt? (sq a b)).getD 0
-    pure { N := n, dist := fun a b => (tab[a]!)[b]!,
-           lt := fun item a b => decide ((-2) * kf item a + kf a a < (-2) * kf item b + kf b b) }
-  else
-    let metric := (field? fs "metric").getD "L1"
-    match metric with
-    | "matrix" =>
-      match (field? fs "m") >>= parseRows with
-      | some m =>
-        let d := fun (a b : Nat) => (m[a]!)[b]!
-        pure { N := m.size, dist := d, lt := fun item a b => decide (d item a < d item b) }
-      | none => throw "bad-m"
-    | _ =>
-      match pts? with
-      | some pts =>
-        let d := if metric == "Linf" then fun (a b : Nat) => linf pts[a]! pts[b]! else fun (a b : Nat) => l1 pts[a]! pts[b]!
-        pure { N := pts.size, dist := d, lt := fun item a b => decide (d item a < d item b) }
-      | none => throw "bad-pts"
-
-def parseLists (s : String) : Option (List (List Nat)) :=
-  allSome ((s.splitOn ";").map fun r => parseNats r)
+open TapkeeVerif TapkeeVerif.Util TapkeeVerif.Knn TapkeeVerif.VpTree TapkeeVerif.KnnIO
 
 def b2s (b : Bool) : String := if b then "1" else "0"
 
